@@ -5,6 +5,7 @@
 import PLV.Lemmas.ConcCover
 import PLV.Lemmas.MatchInv
 import PLV.Judge
+import PLV.Lemmas.ConcSolo
 
 namespace PLV.C08
 open PLV PLV.Conc
@@ -91,6 +92,18 @@ theorem C08_drain {l : Level} (hl : l.Inv) (g : Nat) {progs : List (List COp)} (
     have : m = [] := ids_eq_nil hagg.covered
     subst this
     rw [hr.2.2.1, hz]; rfl
+
+/-- the draining match of `C08_drain`, issued *in the interleaved machine* by a thread running alone
+    after quiescence, is that big-step match: step by step it arrives at `lq.matchOrder q t g'` and
+    returns its result (`Conc.solo_eq_seq`) — so `C08_drain` speaks about the machine the schedules
+    run on, not only about the sequential function. -/
+theorem C08_drain_is_sequential (sh : Shared) (ts : List Thread) (i : Nat) (q : Nat) (t : Id) (rets : List String)
+    (hq : q ≠ 0) (hi : ts[i]? = some { pc := .idle, todo := [.matchQ q t], rets := rets }) :
+    ∃ n, Conc.run ⟨sh, ts⟩ (List.replicate n i) =
+      ⟨Shared.ofLevel ((levelOf sh).matchOrder q t sh.g).1 ((levelOf sh).matchOrder q t sh.g).2.2,
+       ts.set i { pc := .idle, todo := [], rets := rets ++ [showResult (resultLoc ((levelOf sh).matchOrder q t sh.g).2.1)] }⟩ := by
+  have h := solo_eq_seq (levelOf sh) sh.g ts i (.matchQ q t) [] rets hi hq
+  simpa [seqOp, levelOf, Shared.ofLevel] using h
 
 /-- every order handed to the queue is handed out at most once (ownership, C03) — and, by the cover
     invariant, never to none: a key always keeps a ticket or a thread that owes it one -/
